@@ -111,7 +111,7 @@ pub fn check(c: &Case) -> CheckResult {
 }
 
 pub fn strategy() -> impl Strategy<Value = Case> {
-    (any::<bool>(), schedule(), 0u8..4, prop_oneof![3 => Just(0u8), 1 => 1u8..8], prop::bool::weighted(0.1)).prop_flat_map(|(storage, schedule, reader_kind, filter, systematic)| {
+    (any::<bool>(), schedule(), 0u8..6, prop_oneof![3 => Just(0u8), 1 => 1u8..8], prop::bool::weighted(0.1)).prop_flat_map(|(storage, schedule, reader_kind, filter, systematic)| {
         stream(storage).prop_map(move |stream| Case { stream, storage, schedule: schedule.clone(), reader_kind, filter, systematic })
     })
 }
